@@ -7,5 +7,7 @@ CONSTANTS
   Cols <- Cols3
   SfmAtomic = TRUE
   Rotate = TRUE
+  Tree = TRUE
+  TreeAtomic = TRUE
 INVARIANTS CountAgrees
 CHECK_DEADLOCK FALSE
